@@ -237,7 +237,7 @@ static void connect_cb(uv_connect_t* req, int status) { progress++; nconn_inflig
 static void alloc_cb(uv_handle_t* h, size_t n, uv_buf_t* b) { static char slab[65536]; b->base = slab; b->len = sizeof slab; }
 static void read_cb(uv_stream_t* s, ssize_t n, const uv_buf_t* b) {
   int i = idx_of((uv_handle_t*) s); progress++;
-  if (n < 0) { outf("cb read h%d E", i); uv_read_stop(s); return; }
+  if (n < 0) { outf("# read h%d %s", i, uv_err_name((int) n)); uv_read_stop(s); return; }   /* EOF: peer closed, no descriptor effect */
   if (n == 0) return;
   outf("cb read h%d %d", i, (int) n);
   if (HS[i].kind != K_PIPE || HS[i].policy != 1) return;
